@@ -179,7 +179,7 @@ def sentinel(w):
 
 def run(tier, seed):
     rep = Report("C09", tier, seed, "exploration")
-    n = 200 if tier == "quick" else 12000
+    n = 800 if tier == "quick" else 12000
     rep.rule = ("2-4 SQL clients (inserts with unique ids, deletes of ids whose insert the same client saw acknowledged) on 1-3 "
                 "tables of tiny row-sets, compactor + vacuum driven by a clock actor, seeded perturbation at the hook points in "
                 "Compactor::run / transaction start / commit (thorough: directed gates for the pin-vs-lock windows); distinct "
